@@ -207,3 +207,88 @@ func ZZStopAfterDownloadOnce() {
 		}
 	}
 }
+
+// zzAllocDone delivers the allocator's result: all files exist.
+func zzAllocDone(t *torrent, sto *zzStorage) bool {
+	if t.allocator == nil {
+		return false
+	}
+	al := t.allocator
+	al.HasExisting = true
+	for _, f := range t.info.Files {
+		sf, _, _ := sto.Open(f.Path, f.Length)
+		al.Files = append(al.Files, allocator.File{Storage: sf, Name: f.Path, Padding: f.Padding})
+	}
+	t.handleAllocationDone(al)
+	return true
+}
+
+// ZZVerifyFindsDamage: a complete, seeding torrent is verified by hand and the
+// verification finds an arbitrary set of pieces (all, some, none): it ends
+// stopped; started again it is Seeding only if every piece verified, otherwise
+// Downloading with exactly the verified pieces marked done and the completion
+// flag cleared.
+//
+//vrt:cover ZZVerifyFindsDamage verification found a damaged piece
+//vrt:cover ZZVerifyFindsDamage verification found everything
+func ZZVerifyFindsDamage() {
+	info := metainfo.ZZConcreteInfo(zzPieceLen, zzNumPieces, []int64{zzPieceLen * zzNumPieces}, false)
+	bf := bitfield.New(zzNumPieces)
+	bf.Set(0)
+	bf.Set(1)
+	sto := &zzStorage{}
+	t := zzNewTorrent(info, bf, sto)
+	zzMustStop = false
+	t.start()
+	vrt.Assert(zzAllocDone(t, sto), "no allocation after start")
+	vrt.Assert(t.status() == Seeding, "complete torrent is not seeding")
+	zzInv(t, sto)
+	t.handleVerifyCommand()
+	zzInv(t, sto)
+	vrt.Assert(t.status() == Stopping, "verify command did not stop the running torrent first")
+	t.handleStopped()
+	zzInv(t, sto)
+	vrt.Assert(zzAllocDone(t, sto), "verification did not start with an allocation")
+	zzInv(t, sto)
+	vrt.Assert(t.verifier != nil, "no verifier started for a manual verification")
+	if t.verifier == nil {
+		return
+	}
+	ve := t.verifier
+	ve.Bitfield = bitfield.New(zzNumPieces)
+	found := 0
+	for i := uint32(0); i < zzNumPieces; i++ {
+		if vrt.Bool("piece_verifies") {
+			ve.Bitfield.Set(i)
+			found++
+		}
+	}
+	vrt.Cover(found < zzNumPieces, "verification found a damaged piece")
+	vrt.Cover(found == zzNumPieces, "verification found everything")
+	t.handleVerificationDone(ve)
+	zzInv(t, sto)
+	vrt.Assert(t.status() == Stopping, "manual verification did not end with the torrent stopping")
+	t.handleStopped()
+	zzInv(t, sto)
+	vrt.Assert(t.status() == Stopped, "manual verification did not end stopped")
+	vrt.Assert(t.completed == (found == zzNumPieces), "completion flag after a manual verification differs from 'every piece verified'")
+	// start again
+	t.start()
+	vrt.Assert(zzAllocDone(t, sto), "no allocation after the second start")
+	if t.verifier != nil {
+		v2 := t.verifier
+		v2.Bitfield = bitfield.New(zzNumPieces)
+		for i := uint32(0); i < zzNumPieces; i++ {
+			if ve.Bitfield.Test(i) {
+				v2.Bitfield.Set(i)
+			}
+		}
+		t.handleVerificationDone(v2)
+	}
+	zzInv(t, sto)
+	if found == zzNumPieces {
+		vrt.Assert(t.status() == Seeding, "fully verified torrent is not seeding after start")
+	} else {
+		vrt.Assert(t.status() == Downloading, "torrent with a damaged piece does not download after start (reports Seeding or stays idle)")
+	}
+}
